@@ -43,6 +43,8 @@ def inputs():
         "fails": b"void f(void) {\nint a = 1;\n",                          # unbalanced brace: exit 74
         "empty": b"",
         "big": big,
+        # larger than one stdio buffer: fwrite() itself issues write() calls (errors surface in fwrite, not only in fclose)
+        "medium": b"".join(b"int  m%d=%d ;\n" % (i, i) for i in range(400)),
     }
 
 
@@ -153,7 +155,7 @@ def check(ctx):
     subprocess.run(["gcc", "-O2", "-w", "-o", os.path.join(build.BUILD_ROOT, "sysfi"),
                     os.path.join(os.path.dirname(os.path.dirname(__file__)), "sysfi.c")], check=True)
     scen_l = list(SCEN)
-    inp_l = ["changes", "already-formatted", "fails"] if quick else list(INPUTS)
+    inp_l = ["changes", "already-formatted", "fails", "medium"] if quick else list(INPUTS)
     pre_l = ["clean", "stale-backup"] if quick else PRE
     evaluations = 0
     fired = set()
